@@ -58,14 +58,14 @@ __CPROVER_ensures(__CPROVER_return_value == (f_abs(b.Pole - a.Pole) < c.Toleranc
 {
   return !GFTermCompare_call(&c, a, b) && !GFTermCompare_call(&c, b, a);
 }
-//@harness h_Compare_order enforce=GFTermCompare_call props=C01 defs=-DVERIF_FP_IEEE min_obl=20 reach=1 timeout=120
+//@harness h_Compare_order enforce=GFTermCompare_call props=C01 defs=-DVERIF_FP_IEEE min_obl=52 reach=1 timeout=300
 void h_Compare_order(void)
 {
   GFTermCompare *c; GFTerm a, b;
   GFTermCompare_call(c, a, b);
   REACH("exit");
 }
-//@harness h_Compare_like enforce=term_like props=C01 defs=-DVERIF_FP_IEEE min_obl=20 reach=1 timeout=120
+//@harness h_Compare_like enforce=term_like props=C01 defs=-DVERIF_FP_IEEE min_obl=19 reach=1 timeout=900
 void h_Compare_like(void)
 {
   GFTermCompare c; GFTerm a, b;
@@ -89,7 +89,7 @@ __CPROVER_requires(__CPROVER_is_fresh(self, sizeof(*self)))
 __CPROVER_assigns()
 __CPROVER_ensures(__CPROVER_return_value == spec_negligible(t, self->Tolerance, ToleranceDivisor))
 //@end
-//@harness h_IsNegligible enforce=GFTermIsNegligible_call props=C01 min_obl=20 reach=1 timeout=120
+//@harness h_IsNegligible enforce=GFTermIsNegligible_call props=C01 min_obl=33 reach=1 timeout=120
 void h_IsNegligible(void)
 {
   GFTermIsNegligible *p; GFTerm t; unsigned long n;
@@ -106,7 +106,7 @@ __CPROVER_assigns(self->Residue)
 __CPROVER_ensures(__CPROVER_return_value == self)
 __CPROVER_ensures(TERM_SAME(*self, spec_sum(__CPROVER_old(*self), AnotherTerm)))
 //@end
-//@harness h_Term_addassign enforce=GFTerm_addassign props=C01 min_obl=20 reach=1 timeout=120
+//@harness h_Term_addassign enforce=GFTerm_addassign props=C01 min_obl=78 reach=1 timeout=120
 void h_Term_addassign(void)
 {
   GFTerm *t; GFTerm u;
@@ -163,10 +163,37 @@ __CPROVER_ensures(add_term_post(__CPROVER_old(self->data), self->data, self->is_
  * transitive -- into another like element), never stored as a separate term */
 __CPROVER_ensures((__CPROVER_old(self->data.ghas) && term_like(self->data.comp, __CPROVER_old(self->data.gval), term)) ==> self->data.find_kind != OSG_END)
 //@end
-//@harness h_TermList_add_term enforce=TermListGF_add_term props=C01 min_obl=100 reach=6 timeout=600
+//@harness h_TermList_add_term enforce=TermListGF_add_term props=C01 min_obl=944 reach=6 timeout=600
 void h_TermList_add_term(void)
 {
   TermListGF *tl; GFTerm t;
   TermListGF_add_term(tl, t);
   REACH("exit");
 }
+
+/* =====================================================================================================================
+ * WHAT IS PROVED, WHAT IS NOT
+ * h_Compare_order (bit-precise): Compare(t1,t2) with Tolerance > 0 implies t1.Pole < t2.Pole (so Compare is irreflexive and orders by pole);
+ *   !Compare(t1,t2) implies t2.Pole - t1.Pole < Tolerance.       h_Compare_like / h_Compare_like_abs (slow, thorough tier): two terms are
+ *   "like" (equivalent for std::set) iff both pole differences are below the tolerance iff |t2.Pole - t1.Pole| < Tolerance.
+ * h_IsNegligible: |Residue| < Tolerance/divisor (pin).     h_Term_addassign: residues added, pole kept, returns *this, writes Residue only.
+ * h_TermList_add_term: std::set = ghost-element view of stubs/ordset.h (B) with the EXTRACTED comparator.  For an arbitrary observed
+ *   stored element x (or none) and an arbitrary term t:
+ *     no stored term is like t  -> t is stored, size+1, x untouched;
+ *     a stored term e is like t -> e is replaced by (e.Residue + t.Residue, e.Pole), size unchanged, unless
+ *                                  |sum| < Tolerance/((size-1)+1) -- then e is removed, size-1; every other element (x != e) untouched;
+ *     x like t -> t is merged, never stored separately.   Exactly one find; *it only while the element is stored.
+ *   Reading of the documentation: "IsNegligible(T, current_number_of_terms + 1)" with current_number_of_terms = terms in the container at
+ *   that moment, i.e. WITHOUT the like term that has just been taken out (divisor = old size).  check_terms() uses size()+1 with the
+ *   term included; add_term is therefore slightly stricter than check_terms (drops |sum| in [Tol/(n+1), Tol/n)) -- harmless for C01.
+ * NOT proved: TermList::check_terms, serialization; global statements over all equivalence classes at once ("sum of residues per class is
+ *   preserved") follow from the per-element statement only by the ghost-element argument.
+ * ASSUMPTIONS introduced here (stubs/ordset.h (B)): semantics of std::set find/insert/erase(key); stored elements pairwise not equivalent;
+ *   Compare irreflexive (proved for Tolerance > 0 in h_Compare_order).  Compare is NOT a strict weak ordering (tolerance equivalence is
+ *   not transitive); the model does not assume it is: find may return any like element.
+ * MUTANTS (obligation that failed): if(true) instead of the negligibility test, size()+2, no erase, insert(term) instead of insert(sum),
+ *   inverted test, operator+= also adding the poles -> TermListGF_add_term.postcondition.1;  erase before `sum = *it` -> assertion.4
+ *   (iterator used after erase);  operator+=: `-=` / poles added -> GFTerm_addassign.postcondition.2 (+ assigns.1);
+ *   Compare: `>` -> h_Compare_order postcondition.2, term_like.postcondition.1;  t1-t2 -> postcondition.1/.2;
+ *   IsNegligible: `>` / `*` -> GFTermIsNegligible_call.postcondition.1
+ */
